@@ -178,7 +178,8 @@ pub fn parse_diff(text: &str) -> Result<(), Failure> {
 
 /// every reported position must be the start of a token of the right text (reference lexer)
 fn check_positions_lex(text: &str, ext_import: bool, recs: &[crate::conv::PosRec], detail: &Value) -> Result<(), Failure> {
-    let Ok(toks) = crate::refparse::lex(text, ext_import) else { return Ok(()) };
+    let toks = if ext_import { crate::refparse::parse_op_doc_toks(text).map(|x| x.1) } else { crate::refparse::lex(text, false) };
+    let Ok(toks) = toks else { return Ok(()) };
     for rec in recs {
         if rec.builtin {
             return Err(Failure::new("parse-diff:position-builtin", format!("{} carries a builtin position", rec.what), detail.clone()));
